@@ -911,6 +911,42 @@ pub fn verif_parse_and_verify_peer_id(
 #[cfg(feature = "verif")]
 pub const VERIF_STATIC_KEY_DOMAIN: &str = STATIC_KEY_DOMAIN;
 
+/// Verification hook: the Noise protocol name and the crypto resolver used by [`handshake`], so
+/// that an external harness can build a `snow` peer speaking exactly the same protocol.
+#[cfg(feature = "verif")]
+pub const VERIF_NOISE_PARAMETERS: &str = NOISE_PARAMETERS;
+#[cfg(feature = "verif")]
+pub use protocol::Resolver as VerifNoiseResolver;
+
+/// Verification hook: decode a `NoiseHandshakePayload` exactly as [`handshake`] does and return
+/// its `identity_key` and `identity_sig` fields (`None` if the protobuf decoder refuses the bytes).
+#[cfg(feature = "verif")]
+#[allow(clippy::type_complexity)]
+pub fn verif_decode_payload(bytes: &[u8]) -> Option<(Option<Vec<u8>>, Option<Vec<u8>>)> {
+    handshake_schema::NoiseHandshakePayload::decode(bytes)
+        .ok()
+        .map(|payload| (payload.identity_key, payload.identity_sig))
+}
+
+/// Verification hooks: what this side presented during the handshake (read-only).
+#[cfg(feature = "verif")]
+impl<S: AsyncRead + AsyncWrite + Unpin> NoiseSocket<S> {
+    /// The local static Diffie-Hellman public key of this session.
+    pub fn verif_local_static(&self) -> Vec<u8> {
+        self.noise.keypair.public.clone()
+    }
+
+    /// The encoded `NoiseHandshakePayload` sent to the remote.
+    pub fn verif_local_payload(&self) -> Vec<u8> {
+        self.noise.payload.clone()
+    }
+
+    /// The peer ID the socket was created for.
+    pub fn verif_peer(&self) -> PeerId {
+        self.peer
+    }
+}
+
 /// The type of the transport used for the crypto/noise protocol.
 ///
 /// This is used for logging purposes.
